@@ -271,6 +271,9 @@ def candidates_come_from_ranking(ctx):
             ctx.broken("candidate-source-missing:" + nm, "anchor", "-", "expected construction site '%s' not found" % nm)
 
 def run(ctx):
+    # 'the victim is a cgroup matched by the configured patterns': what a pattern resolves to is glob(3)'s shell-glob answer (shared with C16 / C11)
+    from .C16 import resolve_rule
+    resolve_rule(ctx)
     from .C16 import components_come_from_split
     components_come_from_split(ctx)
     from .C07 import deferred_victim_is_the_selected_candidate
